@@ -80,6 +80,7 @@ fn hash_back(depth: u8, h: u64, lon: f64, lat: f64, what: &str, api: &str, case:
 
 pub fn check_cell(depth: u8, h: u64, part: &mut Part) -> Option<Viol> {
   let case = cell_case(depth, h);
+  journal("nested geometry accessors", || case.clone());
   // 1. centre
   let c = match guarded(move || nested::center(depth, h)) {
     Ok(c) => c,
@@ -297,6 +298,7 @@ pub fn check_bad_hash(depth: u8, h: u64) -> Vec<Viol> {
 /// hash_with_dxdy on one (depth, position).
 pub fn check_pos(depth: u8, lon: f64, lat: f64, part: &mut Part) -> Option<Viol> {
   let case = pos_case(depth, lon, lat);
+  journal("nested position accessors", || case.clone());
   let (h, dx, dy) = match guarded(move || nested::hash_with_dxdy(depth, lon, lat)) {
     Ok(v) => v,
     Err(m) => viol!("nested::hash_with_dxdy", "panic-in-domain", case, "(hash, dx, dy)".into(), m),
